@@ -12,8 +12,10 @@ mod h_cmp;
 mod h_constraints;
 mod h_conv;
 mod h_datetime;
+mod h_echo;
 mod h_html;
 mod h_list;
+mod h_literal;
 mod h_number;
 mod h_parse;
 mod h_prog;
@@ -56,10 +58,12 @@ const ENTRIES: &[(&str, Entry)] = &[
     ("h_c19_add", h_datetime::h_c19_add),
     ("h_c19_add_text", h_datetime::h_c19_add_text),
     ("h_c15_string", h_string::h_c15_string),
+    ("h_c15_expr", h_echo::h_c15_expr),
     ("h_c14_integer", h_number::h_c14_integer),
     ("h_c23_temperature", h_temperature::h_c23_temperature),
     ("h_c02_solve", h_constraints::h_c02_solve),
     ("h_c10_parse", h_parse::h_c10_parse),
+    ("h_c10_literal", h_literal::h_c10_literal),
     ("h_c18_step", h_list::h_c18_step),
     ("h_c18_hist", h_list::h_c18_hist),
 ];
